@@ -254,7 +254,7 @@ def requests_C19(docs, emitted, seed, tier):
     """every truncation point of valid encodings of every type: live heap before == after a failed decode"""
     r = random.Random(seed * 389 + 19)
     out = doc_lines(docs, emitted)
-    per = 4 if tier == "quick" else 25
+    per = 4 if tier == "quick" else 12
     for d in docs:
         items, types = data_types(d)
         for it in types:
@@ -263,10 +263,10 @@ def requests_C19(docs, emitted, seed, tier):
                 # every cut of the encoding is decoded by model and code: quadratic in the length; the rare multi-kilobyte payloads
                 # of the value generator add nothing here (they are C01 / C02 / C11 material)
                 for _retry in range(6):
-                    if len(idlgen.sexp(v)) <= 3000:
+                    if len(idlgen.sexp(v)) <= 1600:
                         break
                     v = idlgen.gen_item_value(items, it, r, r.randrange(1, 3))
-                if len(idlgen.sexp(v)) > 3000:
+                if len(idlgen.sexp(v)) > 1600:
                     continue
                 for p in ("bin", "cmp"):
                     out.append(f"gl {d['name']} {it['name']} {p} {idlgen.sexp(v)}")
